@@ -84,7 +84,10 @@ impl Ctx {
         match self.tier {
             Tier::Quick => q,
             Tier::Thorough => t,
-            Tier::Search => (q * 10).max(t),
+            // SIZE-like parameters (exhaustive lengths / depths / alphabet sizes: small, thorough < 2x quick) keep their
+            // thorough value in the search tier — ten times an exponent is not "more cases", it is out of memory (a
+            // search run of C20 once grew to 60 GB that way); COUNT-like budgets are multiplied.
+            Tier::Search => if t <= 2 * q || t <= 16 { t } else { (q * 10).max(t) },
         }
     }
     pub fn count(&mut self, key: &str) {
